@@ -260,6 +260,7 @@ def run(ctx):
     for F in FAMILIES:
         core.run_family(ctx, F())
     long_revcomp_check(ctx)
+    core.run_concurrent(ctx, Random(), list(Random().inputs(ctx))[:240], secs=3 if ctx.tier == 'quick' else 15, name='concurrent-callers')
     ctx.assumptions += ['int -> base-4 digit expansion and bytes <-> int lists are done by the harness (trusted projection); '
                         'for k<=15 TLC additionally checks the integer value itself',
                         'k-mer indices for k>15 are compared as digit tuples (TLC integers are 32-bit)']
